@@ -1,5 +1,5 @@
 (* C18 - debug and quiet options change what is printed, never what is simulated. *)
-From HclV Require Import Base Expr Disasm DisasmProofs Machine MachineSpec MachineProofs DumpSpec DumpProofs.
+From HclV Require Import Base Expr Disasm DisasmProofs Machine MachineSpec MachineProofs DumpSpec DumpProofs Build TableSpec TableProofs.
 Open Scope string_scope.
 Open Scope N_scope.
 
@@ -49,3 +49,43 @@ Theorem C18_table_value_field :
     (0 < w -> slen field = (w + 3) / 4) /\ unhex field = Some (bits v) \/ w = 0.
 Proof. exact table_value_field_ok. Qed.
 Print Assumptions C18_table_value_field.
+
+(* ---- which wires the -d table lists (TableSpec.v / TableProofs.v) ---------------------------- *)
+
+(* the table lists every wire that holds a value in this cycle, is not a constant and is not a
+   bank control signal left at its default - each exactly once, sorted, with the value it holds;
+   grouped form: four sub-tables by kind; ungrouped form: one table *)
+Theorem C18_table_lists_each_wire_once :
+  forall o p vals text,
+    NoDup (map fst vals) -> dump_values o p vals = Ok text ->
+    if o_group_wire_values o then grouped_table p vals text else ungrouped_table p vals text.
+Proof. exact table_lists_each_once_holds. Qed.
+Print Assumptions C18_table_lists_each_wire_once.
+
+(* in the program's own terms: after the cycle's actions the wires with a row are the wires the
+   program assigns, the outputs of the active built-in components and the register-bank signals
+   (the constants are candidates too, and are then left out by the table) *)
+Theorem C18_wires_with_a_row :
+  forall f o p s s1 t,
+    keys_inv p s -> exec_actions f o (p_actions p) s = Ok (s1, t) ->
+    forall k, candidate p (values s1) k <->
+              (In k (written_names (p_actions p)) \/ In k (bank_signal_names (p_banks p)) \/
+               In k (map fst (p_consts p))) /\ ~ In k (p_defaulted p).
+Proof. exact cycle_candidates_holds. Qed.
+Print Assumptions C18_wires_with_a_row.
+
+Theorem C18_key_invariant : stmt_keys_inv_initial /\ stmt_keys_inv_step.
+Proof. split; [exact keys_inv_initial_holds | exact keys_inv_step_holds]. Qed.
+Print Assumptions C18_key_invariant.
+
+(* both forms list the same wires for every accepted program; printing the table cannot fail;
+   the text of a cycle is the trace lines followed by that table *)
+Theorem C18_both_forms_same_wires : stmt_built_types_mark_consts /\ stmt_table_same_wires_both_forms.
+Proof. split; [exact built_types_mark_consts_holds | exact table_same_wires_both_forms_holds]. Qed.
+Print Assumptions C18_both_forms_same_wires.
+Theorem C18_table_total : stmt_table_total.
+Proof. exact table_total_holds. Qed.
+Print Assumptions C18_table_total.
+Theorem C18_step_prints_table : stmt_step_prints_table.
+Proof. exact step_prints_table_holds. Qed.
+Print Assumptions C18_step_prints_table.
